@@ -142,7 +142,16 @@ class Schema(object):
 # generation
 # ---------------------------------------------------------------------------
 
-def gen_schema(rng, n_ns=None, max_types=5, depth=3, allow_any=False, allow_choice=True):
+# local names of the attributes suds itself writes (xsi:type, xsi:nil, SOAP-ENC:arrayType, multiref id/href)
+MARKUP_ATTR_NAMES = ("type", "nil", "arrayType", "id", "href")
+
+
+def gen_schema(rng, n_ns=None, max_types=5, depth=3, allow_any=False, allow_choice=True, markup_attr_names=False,
+               p_nested=0.25, p_cont_opt=0.25, p_named=0.3):
+    """markup_attr_names (default off: the PRNG stream is then unchanged): schema attributes may be
+    NAMED like suds' own markup attributes (each name at most once per schema).
+    p_nested / p_cont_opt / p_named: probability that a member of a container is itself a container, that a
+    nested container is minOccurs=0, that an element has a named complex type (defaults = the historic values)."""
     n_ns = n_ns or rng.choice([1, 1, 2, 2, 3])
     S = Schema([("urn:fam:ns%d" % i, rng.random() < 0.6) for i in range(n_ns)])
     ntypes = rng.randrange(1, max_types + 1)
@@ -155,7 +164,7 @@ def gen_schema(rng, n_ns=None, max_types=5, depth=3, allow_any=False, allow_choi
 
     def gen_elem(ns, level, avail_types):
         r = rng.random()
-        if avail_types and r < 0.3 and level < depth:
+        if avail_types and r < p_named and level < depth:
             t = rng.choice(avail_types)
             tref = ("n", t.ns, t.name)
         else:
@@ -179,7 +188,7 @@ def gen_schema(rng, n_ns=None, max_types=5, depth=3, allow_any=False, allow_choi
         n = rng.randrange(1, 4)
         kids = []
         for _ in range(n):
-            if kind != "all" and level < depth and rng.random() < 0.25:
+            if kind != "all" and level < depth and rng.random() < p_nested:
                 kids.append(gen_cont(ns, level + 1, avail_types))
             elif allow_any and kind == "sequence" and rng.random() < 0.05:
                 kids.append(Any())
@@ -188,13 +197,21 @@ def gen_schema(rng, n_ns=None, max_types=5, depth=3, allow_any=False, allow_choi
                 if kind == "all":
                     e.multi = False
                 kids.append(e)
-        return Cont(kind, (not top) and rng.random() < 0.25, kids)
+        return Cont(kind, (not top) and rng.random() < p_cont_opt, kids)
+
+    used_markup = set()
 
     def gen_attrs():
         out = []
-        for _ in range(rng.choice([0, 0, 1, 2])):
+        for _ in range(rng.choice([0, 1, 1, 2] if markup_attr_names else [0, 0, 1, 2])):
             used_elem_names[0] += 1
-            a = Attr("a%d" % used_elem_names[0], rng.choice(["string", "int", "boolean"]),
+            aname = "a%d" % used_elem_names[0]
+            if markup_attr_names:
+                free = [m for m in MARKUP_ATTR_NAMES if m not in used_markup]
+                if free and rng.random() < 0.5:
+                    aname = rng.choice(free)
+                    used_markup.add(aname)
+            a = Attr(aname, rng.choice(["string", "int", "boolean"]),
                      required=rng.random() < 0.3)
             if not a.required and rng.random() < 0.4:
                 a.default = "adef"
@@ -275,12 +292,15 @@ def _dec_text(v):
     return ("-" if sign else "") + body
 
 
-def gen_value(rng, S, elem, depth=0, as_dict=None, allow_derived=True, for_list_item=False, anc_opt=False):
+def gen_value(rng, S, elem, depth=0, as_dict=None, allow_derived=True, for_list_item=False, anc_opt=False,
+              absent_groups=0.0):
     """A Python-level abstract value for element `elem`:
-    None | ('leaf', pyvalue, text) | [items] | VObj"""
+    None | ('leaf', pyvalue, text) | [items] | VObj
+    absent_groups: see gen_object."""
     if elem.multi and not for_list_item:
         n = rng.choice([0, 1, 2, 3])
-        return [gen_value(rng, S, elem, depth, as_dict, allow_derived, True, anc_opt) for _ in range(n)]
+        return [gen_value(rng, S, elem, depth, as_dict, allow_derived, True, anc_opt, absent_groups)
+                for _ in range(n)]
     r = rng.random()
     # None = "absent" for optional members, xsi:nil for nillable ones; inside a
     # list None only makes sense as a nil occurrence of a non-optional member
@@ -298,17 +318,36 @@ def gen_value(rng, S, elem, depth=0, as_dict=None, allow_derived=True, for_list_
         cands = [d for d in S.types if d is not t and S.derived_from(d, t)]
         if cands:
             real = rng.choice(cands)
-    return gen_object(rng, S, real, depth, as_dict, allow_derived, typed=(real is not t) or rng.random() < 0.5)
+    return gen_object(rng, S, real, depth, as_dict, allow_derived, typed=(real is not t) or rng.random() < 0.5,
+                      absent_groups=absent_groups)
 
 
-def gen_object(rng, S, t, depth=0, as_dict=None, allow_derived=True, typed=True):
+def gen_object(rng, S, t, depth=0, as_dict=None, allow_derived=True, typed=True, absent_groups=0.0):
+    """absent_groups (default 0: the PRNG stream is then unchanged) = probability that an optional
+    container (minOccurs=0 on a sequence/choice/all) of a NESTED object (depth >= 1: suds gives a
+    top-level parameter no ancestry) is left out as a whole: each of its members - whatever its own
+    minOccurs - is then None (the state of an untouched factory object), an empty list, or has no
+    key at all; nillable members get no key (None would be ambiguous with xsi:nil)."""
     fields = []
     flat = S.flat(t)
     chosen_in_choice = set()
     # choose one branch per choice: simplification — include each element with
     # probability, but for choice containers only the first picked kid
+    def absent(p):
+        if isinstance(p, Cont):
+            for k in p.kids:
+                absent(k)
+        elif isinstance(p, Elem):
+            r = rng.random()
+            if p.nillable or r < 0.2:
+                return
+            fields.append((p.name, [] if (p.multi and r < 0.45) else None))
+
     def walk(p, skip, anc_opt=False):
         if isinstance(p, Cont):
+            if absent_groups and depth >= 1 and p.opt and not skip and rng.random() < absent_groups:
+                absent(p)
+                return
             if p.kind == "choice":
                 pick = rng.randrange(len(p.kids))
                 for i, k in enumerate(p.kids):
@@ -326,7 +365,8 @@ def gen_object(rng, S, t, depth=0, as_dict=None, allow_derived=True, typed=True)
                     return
                 fields.append((p.name, None if (p.nillable or p.opt) else VObj(None, [])))
                 return
-            fields.append((p.name, gen_value(rng, S, p, depth + 1, as_dict, allow_derived, anc_opt=anc_opt)))
+            fields.append((p.name, gen_value(rng, S, p, depth + 1, as_dict, allow_derived, anc_opt=anc_opt,
+                                             absent_groups=absent_groups)))
     for c in S.chain(t):
         for p in c.content:
             walk(p, False)
@@ -433,6 +473,12 @@ class Renderer(object):
         # local_tns: every schema block binds the SAME prefix `tns` to its own target namespace
         # (a common hand-written style); references inside the block to its own namespace use it
         self.local_tns = False
+        # groups (default off): every nested sequence/choice container is factored out into a named
+        # <xsd:group> of the same schema block and referenced with <xsd:group ref=.. [minOccurs="0"]/>
+        # (the abstract interface is unchanged: a group reference stands for its content)
+        self.groups = False
+        self._group_defs = {}       # ns index -> [text]
+        self._group_count = 0
 
     def tref(self, tr):
         if tr[0] == "b":
@@ -449,13 +495,23 @@ class Renderer(object):
             a += ' form="%s"' % ("qualified" if e.qualified else "unqualified")
         return "%s<xsd:element%s/>" % (indent, a)
 
-    def particle(self, p, ns, indent):
+    def particle(self, p, ns, indent, _level=0):
         if isinstance(p, Elem):
             return self.elem(p, ns, indent)
         if isinstance(p, Any):
             return '%s<xsd:any minOccurs="0"/>' % indent
+        if self.groups and _level > 0 and p.kind in ("sequence", "choice"):
+            self._group_count += 1
+            gname = "grp%d" % self._group_count
+            gi = "      "
+            body = "\n".join(self.particle(k, ns, gi + "    ", _level + 1) for k in p.kids)
+            self._group_defs.setdefault(ns, []).append(
+                '%s<xsd:group name="%s">\n%s  <xsd:%s>\n%s\n%s  </xsd:%s>\n%s</xsd:group>'
+                % (gi, gname, gi, p.kind, body, gi, p.kind, gi))
+            return '%s<xsd:group ref="%s:%s"%s/>' % (indent, self.prefixes[ns], gname,
+                                                     ' minOccurs="0"' if p.opt else "")
         head = "%s<xsd:%s%s>" % (indent, p.kind, ' minOccurs="0"' if p.opt else "")
-        body = "\n".join(self.particle(k, ns, indent + "  ") for k in p.kids)
+        body = "\n".join(self.particle(k, ns, indent + "  ", _level + 1) for k in p.kids)
         return "%s\n%s\n%s</xsd:%s>" % (head, body, indent, p.kind)
 
     def attr(self, a, indent):
@@ -487,7 +543,10 @@ class Renderer(object):
             self.prefixes[ns] = "tns"
             local = ' xmlns:tns="%s"' % uri
         try:
+            self._group_defs.pop(ns, None)
             types = "\n".join(self.ctype(t) for t in self.S.types if t.ns == ns)
+            if self._group_defs.get(ns):
+                types += "\n" + "\n".join(self._group_defs.pop(ns))
         finally:
             self.prefixes = saved
         return ('    <xsd:schema targetNamespace="%s" elementFormDefault="%s"%s>\n%s%s\n%s\n    </xsd:schema>'
@@ -608,7 +667,11 @@ class Op(object):
     global element in namespace 0; style 'rpc': parts = [(part name, tref)],
     body_ns = index of the namespace of the soap:body."""
 
-    def __init__(self, name, style, in_type=None, parts=None, body_ns=0, out_type=None):
+    def __init__(self, name, style, in_type=None, parts=None, body_ns=0, out_type=None, headers=None):
+        # headers (default none): [(global element name, namespace index, tref)] - each is declared as a
+        # global element of that namespace, made a part of message <op>Hdr and bound with
+        # <soap:header message=.. part=.. use="literal"/> in the operation's input
+        self.headers = headers or []
         self.name = name
         self.style = style
         self.in_type = in_type
@@ -621,9 +684,18 @@ def render_ops(S, ops, R=None):
     R = R or Renderer(S)
     p0 = R.prefixes[0]
     globals_ = []
+    hdr_globals = {}
     msgs, pops = [], []
     doc_bops, rpc_bops = [], []
     for op in ops:
+        soaphdrs = ""
+        if op.headers:
+            hparts = ""
+            for (gname, gns, tr) in op.headers:
+                hdr_globals.setdefault(gns, []).append('      <xsd:element name="%s" type="%s"/>' % (gname, R.tref(tr)))
+                hparts += '<wsdl:part name="h_%s" element="%s:%s"/>' % (gname, R.prefixes[gns], gname)
+                soaphdrs += '<soap:header message="%s:%sHdr" part="h_%s" use="literal"/>' % (p0, op.name, gname)
+            msgs.append('  <wsdl:message name="%sHdr">%s</wsdl:message>' % (op.name, hparts))
         if op.style == "wrapped":
             globals_.append('      <xsd:element name="%s" type="%s"/>' % (op.name, R.tref(("n",) + tuple(op.in_type))))
             inparts = '<wsdl:part name="parameters" element="%s:%s"/>' % (p0, op.name)
@@ -646,14 +718,15 @@ def render_ops(S, ops, R=None):
         if op.style == "rpc":
             body = '<soap:body use="literal" namespace="%s"/>' % S.namespaces[op.body_ns][0]
             rpc_bops.append('    <wsdl:operation name="%s"><soap:operation soapAction="act_%s" style="rpc"/>'
-                            '<wsdl:input>%s</wsdl:input><wsdl:output>%s</wsdl:output></wsdl:operation>'
-                            % (op.name, op.name, body, body))
+                            '<wsdl:input>%s%s</wsdl:input><wsdl:output>%s</wsdl:output></wsdl:operation>'
+                            % (op.name, op.name, soaphdrs, body, body))
         else:
             doc_bops.append('    <wsdl:operation name="%s"><soap:operation soapAction="act_%s" style="document"/>'
-                            '<wsdl:input><soap:body use="literal"/></wsdl:input>'
+                            '<wsdl:input>%s<soap:body use="literal"/></wsdl:input>'
                             '<wsdl:output><soap:body use="literal"/></wsdl:output></wsdl:operation>'
-                            % (op.name, op.name))
-    blocks = [R.schema_block(i, "\n".join(globals_) if i == 0 else "") for i in range(len(S.namespaces))]
+                            % (op.name, op.name, soaphdrs))
+    blocks = [R.schema_block(i, "\n".join((globals_ if i == 0 else []) + hdr_globals.get(i, [])))
+              for i in range(len(S.namespaces))]
     tns = S.namespaces[0][0]
     # one portType + binding per style present (a binding has one style)
     pieces = []
